@@ -75,6 +75,19 @@ def expr_grid_programs(seed):
     return progs
 
 
+# fixed Elk sources outside MiniElk, compared VM vs native like the finding replays: short-circuit operators whose left
+# operand has a statically falsy / truthy type and a side effect (the backend has shortcuts keyed on the static type)
+RAW_PROGRAMS = [
+    "module SCn\n  def note(s: String): nil\n    println(\"> \" + s)\n    nil\n  end\n  def yes(s: String): true\n    println(\"+ \" + s)\n    true\n  end\n"
+    "  def no(s: String): false\n    println(\"- \" + s)\n    false\n  end\n  def num(s: String, n: Int): Int?\n    println(\"# \" + s)\n    return nil if n < 0\n    n\n  end\nend\n"
+    "x := SCn.note(\"first\") || 1\nprintln(x.inspect)\ny := SCn.yes(\"second\") && 2\nprintln(y.inspect)\n"
+    "SCn.note(\"third\") || SCn.note(\"fourth\")\nw := SCn.no(\"fifth\") || 3\nprintln(w.inspect)\nz := SCn.note(\"sixth\") ?? 6\nprintln(z.inspect)\n"
+    "SCn.yes(\"seventh\") || SCn.note(\"not evaluated\")\nSCn.no(\"eighth\") && SCn.note(\"not evaluated\")\n"
+    "if SCn.note(\"ninth\") || SCn.yes(\"tenth\")\n  println(\"then\")\nend\nunless SCn.yes(\"eleventh\") && SCn.no(\"twelfth\")\n  println(\"unless\")\nend\n"
+    "v := SCn.num(\"a\", -1) ?? SCn.num(\"b\", 4) ?? 9\nprintln(v.inspect)\nu := SCn.num(\"c\", 2) || 7\nprintln(u.inspect)\n",
+]
+
+
 def native_translate(srcs):
     return vlib.run_programs([{"id": f"n{i}", "src": s, "name": f"/tmp/n{i}.elk"} for i, s in enumerate(srcs)], sub="native")
 
@@ -169,8 +182,13 @@ def run(ctx):
     ok_l, log = vlib.lake_build(["elkmodel"])
     ctx.obligation("lake build elkmodel (MiniElk reference evaluator)", ok_l, "build", "; ".join(vlib.lean_errors(log)))
     ctx.checker_cmd = "cd lean && lake build elkmodel   # no property theorem: see level_text"
+    raw_replay = None
     if ctx.replay:
-        sexprs = [json.load(open(ctx.replay))["input"]["sexpr"]]
+        inp = json.load(open(ctx.replay))["input"]
+        if inp.get("sexpr"):
+            sexprs = [inp["sexpr"]]
+        else:
+            sexprs, raw_replay = [], [inp["program"]]
     else:
         sexprs = mini_common.corpus_programs("C09") + expr_grid_programs(ctx.seed)
         for i in range(ctx.n(20, 1500)):
@@ -212,8 +230,8 @@ def run(ctx):
                              f"VM: stdout={vm_ans[idx]['stdout']!r} {vm}; native: stdout={out!r} {nat} stderr-tail={strip_ansi(err)[-200:]!r}; "
                              f"reference: {r['model']} {r['model_out']!r}"):
                 ok = False
-    if not ctx.replay:
-        fsrcs = FINDING_PROGRAMS
+    if not ctx.replay or raw_replay:
+        fsrcs = raw_replay or (FINDING_PROGRAMS + RAW_PROGRAMS)
         ftrans = vlib.run_programs([{"id": f"k{i}", "src": s_, "name": f"/tmp/k{i}.elk"} for i, s_ in enumerate(fsrcs)], sub="native")
         fvm = vlib.run_programs([{"id": f"k{i}", "src": s_, "name": f"/tmp/k{i}.elk"} for i, s_ in enumerate(fsrcs)])
         facc = [(1000 + i, t["go"]) for i, t in enumerate(ftrans) if t.get("ok")]
